@@ -106,5 +106,27 @@ func (pc *PersistedClock) read() error {
 
 func (pc *PersistedClock) Write() error {
 	data := []byte(fmt.Sprintf("%d", pc.counter))
-	return util.WriteFile(pc.root, pc.filePath, data, 0644)
+
+	// Write in a temporary file (outside of the clocks directory, where every file is a clock)
+	// and rename it over the clock file: the clock is replaced atomically, a crash can't leave
+	// it truncated or half written.
+	tmp, err := util.TempFile(pc.root, "", "clock-")
+	if err != nil {
+		return err
+	}
+
+	_, err = tmp.Write(data)
+	if err != nil {
+		_ = tmp.Close()
+		_ = pc.root.Remove(tmp.Name())
+		return err
+	}
+
+	err = tmp.Close()
+	if err != nil {
+		_ = pc.root.Remove(tmp.Name())
+		return err
+	}
+
+	return pc.root.Rename(tmp.Name(), pc.filePath)
 }
